@@ -11,7 +11,16 @@ Tie:  G  Gen/BufProgs.lean is regenerated from /repo (harness/facts_bufprog.py):
          deep snapshot of all arguments before / after, np.shares_memory(out, in), write-to-output probe,
          shape / dims / coords (scalar coords included) / attrs / backend.  The prediction of the generated
          program (which inputs may be written, which inputs the result may alias) must cover the observation.
-Oracle (written from the property statement, with its documented exceptions only): the same observation.
+      wrapper level (round 2): every parameter is a raster object with three input buffers (cells, coordinates, attrs);
+         the xarray constructor / copy primitives are rows of a table (Gen.primTable = facts_bufprog.WPRIMS) probed here
+         on the real xarray (run_wrapper_probes); the fixture dimension `meta` of a case says which coordinates (scalar,
+         2-D auxiliary, non-index 1-D, datetime / string scalars, coordinate attrs; every dtype and layout) and which attrs
+         (plain, nested, array-valued, not deep-copyable) the rasters carry.
+Oracle (written from the property statement, with its documented exceptions only): the same observation.  Inputs are
+compared with a recursive snapshot whether the call returned or raised; the output's cells, coordinates and attrs arrays
+are checked with np.shares_memory against every buffer of every argument (index coordinates: only if writeable) and
+written into (cells, coordinate values, coordinate attrs, attrs dict) before the inputs are compared once more.  Values
+nested inside attrs that input and output share through xarray's shallow attrs copy are recorded, not judged.
 """
 import copy
 import json
@@ -27,6 +36,10 @@ PROP = "C10"
 DTYPES = ["int8", "int16", "int32", "int64", "uint8", "uint16", "uint32", "uint64", "float32", "float64"]
 LAYOUTS = ["C", "F", "strided", "readonly"]
 H, W = 6, 7
+# what a raster carries besides its cells (the fixture dimension `meta` of a case)
+COORD_FEATURES = ["scalar", "aux2d", "nonindex1d", "time", "cattrs"]
+ATTR_STYLES = ["plain", "nested", "arrays", "lock", "generator", "module", "handle"]
+UNCOPYABLE = ("lock", "generator", "module", "handle")      # copy.deepcopy raises TypeError on these values
 
 # ------------------------------------------------------------------------------------------------ contracts
 # (from the property statement) primary input of the raster -> raster functions under the identity clause
@@ -74,9 +87,25 @@ def base_values(rng, kind):
 
 def lay_out(a, layout):
     """returns (array with the requested memory layout, owner of the memory)"""
+    if a.ndim == 0 and layout != "strided":
+        a = np.array(a)
+        if layout == "readonly":
+            a.flags.writeable = False
+        return a, a
     if layout == "F":
         a = np.asfortranarray(a)
         return a, a
+    if layout == "strided" and a.ndim == 1:
+        big = np.zeros((a.shape[0] * 2 + 1,), dtype=a.dtype)
+        big[...] = 111 if a.dtype.kind != "b" else 0
+        v = big[1::2][:a.shape[0]]
+        v[...] = a
+        return v, big
+    if layout == "strided" and a.ndim == 0:
+        big = np.zeros((3,), dtype=a.dtype)
+        v = big[1:2].reshape(())
+        v[...] = a
+        return v, big
     if layout == "strided":
         big = np.zeros((a.shape[0] * 2 + 1, a.shape[1] * 3 + 2), dtype=a.dtype)
         big[...] = 111 if a.dtype.kind != "b" else 0
@@ -89,25 +118,97 @@ def lay_out(a, layout):
     return a, a
 
 
-def mk_raster(rng, dtype, layout, backend, kind="elev", nan=True, rname=None, inf=False, tag="r", chunks=None):
+def draw_meta(rng, attrs=None, coords=None):
+    """one point of the fixture dimension: which coordinates / attribute values the raster carries"""
+    feats = [f for f, p in zip(COORD_FEATURES, (0.7, 0.5, 0.4, 0.25, 0.4)) if rng.random() < p]
+    if coords is not None:
+        feats = sorted(set(feats) | set(coords), key=COORD_FEATURES.index)
+    return dict(coords=feats, cdtype=rng.choice(DTYPES), clayout=rng.choice(LAYOUTS),
+                attrs=attrs or rng.choice(ATTR_STYLES))
+
+
+def mk_coords(meta, tag):
+    """-> (coords mapping for the DataArray constructor, {coordinate name: owner of its memory})"""
+    import xarray as xr
+    ys, xs = np.linspace(5.0, 0.0, H), np.linspace(0.0, 6.0, W)
+    if meta is None:            # the fixture of the first round: two index and two scalar coordinates
+        return {"y": ys, "x": xs, "band": sum(map(ord, tag)) % 97, "spatial_ref": 0}, {}
+    feats, cd, cl = meta["coords"], meta["cdtype"], meta["clayout"]
+    cattrs = "cattrs" in feats
+    owners = {}
+
+    def var(name, dims, values, attrs):
+        values = np.asarray(values)
+        if np.dtype(cd).kind == "f":
+            values = values + 0.123456789        # not exactly representable: rounding / re-casting shows
+        arr, owner = lay_out(values.astype(cd), cl)
+        owners[name] = owner
+        return xr.Variable(dims, arr, attrs=attrs if cattrs else None)
+
+    coords = {"y": xr.Variable(("y",), ys, attrs={"units": "m", "axis": "Y"} if cattrs else None),
+              "x": xr.Variable(("x",), xs, attrs={"units": "m", "axis": "X"} if cattrs else None)}
+    if "scalar" in feats:
+        coords["band"] = var("band", (), sum(map(ord, tag)) % 97, {"long_name": "band"})
+        coords["spatial_ref"] = xr.Variable((), np.array(0, dtype="int64"), attrs={
+            "crs_wkt": "GEOGCS[\"WGS 84\"]", "GeoTransform": "0 1 0 5 0 -1", "towgs84": [0, 0, 0]} if cattrs else None)
+    if "aux2d" in feats:
+        ii, jj = np.meshgrid(np.arange(H), np.arange(W), indexing="ij")
+        coords["lon"] = var("lon", ("y", "x"), jj + 10 * ii, {"standard_name": "longitude", "valid_range": [0, 60]})
+        coords["lat"] = var("lat", ("y", "x"), 100 - 3 * ii - jj, {"standard_name": "latitude"})
+    if "nonindex1d" in feats:
+        coords["row_id"] = var("row_id", ("y",), (np.arange(H) * 3) % 7 + 1, {"comment": "not an index"})
+        coords["col_weight"] = var("col_weight", ("x",), np.arange(W) + 2, None)
+    if "time" in feats:
+        coords["time"] = xr.Variable((), np.array("2020-01-02T03:04:05", dtype="datetime64[s]"))
+        coords["tile"] = xr.Variable((), np.array("h12v04"))
+    return coords, owners
+
+
+def mk_attrs(meta, tag):
+    base = {"res": (1.0, 1.0), "crs": "EPSG:4326", "nodata": -9999, "history": ["made", "up"], "layer": tag}
+    style = None if meta is None else meta["attrs"]
+    if style in (None, "plain"):
+        return base
+    if style == "nested":
+        base.update(unit="km", provenance={"steps": ["read", {"clip": [0, 1, 2]}], "bbox": [0.0, 0.0, 6.0, 5.0]},
+                    tags={"dem", "demo"}, scale_factor=0.5)
+    elif style == "arrays":
+        cd = meta["cdtype"]
+        base.update(transform=np.array([1.0, 0.0, 0.0, 0.0, -1.0, 5.0]),
+                    palette=lay_out((np.arange(6).reshape(2, 3) + 1).astype(cd), meta["clayout"])[0],
+                    stats={"hist": np.arange(4), "edges": [0.0, 1.0]})
+    elif style == "lock":
+        import threading
+        base.update(unit="km", source_lock=threading.Lock())
+    elif style == "generator":
+        base.update(block_iter=(i for i in range(3)))
+    elif style == "module":
+        import math
+        base.update(unit="m", backend_module=math)
+    elif style == "handle":
+        base.update(handle=open(os.devnull))
+    return base
+
+
+def mk_raster(rng, dtype, layout, backend, kind="elev", nan=True, rname=None, inf=False, tag="r", chunks=None, meta=None):
+    """-> (raster, owner of the cells' memory, {coordinate name: owner of its memory})"""
     import xarray as xr
     vals = base_values(rng, kind).astype(dtype)
     if np.dtype(dtype).kind == "f" and nan and kind == "elev" and rng.random() < 0.5:
         vals[rng.randrange(H), rng.randrange(W)] = np.nan
         if inf and rng.random() < 0.5:
             vals[rng.randrange(H), rng.randrange(W)] = rng.choice([np.inf, -np.inf])
+    elif np.dtype(dtype).kind == "f" and inf and kind == "elev" and rng.random() < 0.6:
+        vals[rng.randrange(H), rng.randrange(W)] = rng.choice([np.inf, -np.inf])      # +-inf without a NaN cell
     arr, owner = lay_out(vals, layout)
     data = arr
     if backend == "dask":
         import dask.array as da
         ch = rng.choice([(3, 4), (2, 3), (6, 7), (4, 2)])
         data = da.from_array(arr, chunks=chunks or ch)
-    r = xr.DataArray(data, dims=["y", "x"], name=rname,
-                     coords={"y": np.linspace(5.0, 0.0, H), "x": np.linspace(0.0, 6.0, W),
-                             "band": sum(map(ord, tag)) % 97, "spatial_ref": 0},
-                     attrs={"res": (1.0, 1.0), "crs": "EPSG:4326", "nodata": -9999, "history": ["made", "up"],
-                            "layer": tag})
-    return r, owner
+    coords, cowners = mk_coords(meta, tag)
+    r = xr.DataArray(data, dims=["y", "x"], name=rname, coords=coords, attrs=mk_attrs(meta, tag))
+    return r, owner, cowners
 
 
 class Inputs:
@@ -118,9 +219,11 @@ class Inputs:
         self.owners = {}
 
     def raster(self, name, rng, case, **kw):
-        r, o = mk_raster(rng, case["dtype"], case["layout"], case["backend"], tag=name, **kw)
+        r, o, co = mk_raster(rng, case["dtype"], case["layout"], case["backend"], tag=name, meta=case.get("meta"), **kw)
         self.args[name] = r
         self.owners[name] = o
+        for c, oc in co.items():
+            self.owners[f"{name}.coord:{c}"] = oc
         return r
 
     def array(self, name, a):
@@ -170,7 +273,7 @@ def build(case):
         if key == "focal.focal_stats":
             I.plain("stats_funcs", ["mean", "max", "sum"])
     elif key == "convolution.convolve_2d":
-        r, o = mk_raster(rng, case["dtype"], case["layout"], case["backend"])
+        r, o, _ = mk_raster(rng, case["dtype"], case["layout"], case["backend"])
         I.args["data"], I.owners["data"] = r.data, o
         I.array("kernel", np.ones((3, 3)))
     elif key == "convolution.custom_kernel":
@@ -244,9 +347,11 @@ def build(case):
     elif key.startswith("local."):
         layers = {}
         for nm in ("a", "b", "c"):
-            r, o = mk_raster(rng, case["dtype"], case["layout"], "numpy", kind="layer")
+            r, o, co = mk_raster(rng, case["dtype"], case["layout"], "numpy", kind="layer", meta=case.get("meta"))
             layers[nm] = r
             I.owners["raster." + nm] = o
+            for c, oc in co.items():
+                I.owners[f"raster.{nm}.coord:{c}"] = oc
         I.args["raster"] = xr.Dataset(layers, attrs={"title": "layers"})
         if "ref_var" in f.__code__.co_varnames[:f.__code__.co_argcount]:
             I.plain("ref_var", "a")
@@ -281,10 +386,95 @@ def np_of(x):
     return np.asarray(x)
 
 
+class Opaque:
+    """a value that cannot be copied (lock, open handle, generator, module): compared by identity"""
+
+    def __init__(self, ref):
+        self.ref = ref
+
+    def __repr__(self):
+        return f"<{type(self.ref).__name__} object>"
+
+
+def snap_value(v, depth=0):
+    """deep snapshot of an attribute value: containers recursively, arrays by copy, everything that refuses to be
+    deep-copied by identity (the snapshot keeps the object alive, so the identity cannot be re-used)"""
+    if isinstance(v, np.ndarray):
+        return ("array", np.array(v, copy=True), str(v.dtype))
+    if isinstance(v, dict) and depth < 8:
+        return ("dict", [(snap_value(k, depth + 1), snap_value(x, depth + 1)) for k, x in v.items()])
+    if isinstance(v, (list, tuple)) and depth < 8:
+        return (type(v).__name__, [snap_value(x, depth + 1) for x in v])
+    if isinstance(v, (set, frozenset)) and depth < 8:
+        return ("set", sorted((snap_value(x, depth + 1) for x in v), key=repr))
+    if v is None or isinstance(v, (bool, int, float, complex, str, bytes, np.generic)):
+        return ("value", v)
+    try:
+        return ("value", copy.deepcopy(v))
+    except Exception:
+        return ("opaque", Opaque(v))
+
+
+def snap_equal(a, b):
+    if a[0] != b[0]:
+        return False
+    if a[0] == "array":
+        return a[2] == b[2] and same_values(a[1], b[1])
+    if a[0] == "dict":
+        return len(a[1]) == len(b[1]) and all(snap_equal(k1, k2) and snap_equal(v1, v2)
+                                              for (k1, v1), (k2, v2) in zip(a[1], b[1]))
+    if a[0] in ("list", "tuple", "set"):
+        return len(a[1]) == len(b[1]) and all(snap_equal(x, y) for x, y in zip(a[1], b[1]))
+    if a[0] == "opaque":
+        return a[1].ref is b[1].ref
+    x, y = a[1], b[1]
+    try:
+        if type(x) is not type(y) and not (isinstance(x, (int, float, np.generic)) and isinstance(y, (int, float, np.generic))):
+            return False
+        return bool(x == y) or bool(x != x and y != y)
+    except Exception:
+        return repr(x) == repr(y)
+
+
+def show_snap(a):
+    if a[0] == "array":
+        return f"array({a[1].tolist()}, {a[2]})"
+    if a[0] == "dict":
+        return "{" + ", ".join(f"{show_snap(k)}: {show_snap(v)}" for k, v in a[1]) + "}"
+    if a[0] in ("list", "tuple", "set"):
+        return a[0][0] + "[" + ", ".join(show_snap(x) for x in a[1]) + "]"
+    return repr(a[1])
+
+
+def snap_attrs(attrs):
+    """{key: snapshot} of an attrs mapping (keys in order)"""
+    return {k: snap_value(v) for k, v in dict(attrs).items()}
+
+
+def attrs_equal(a, b):
+    """two attrs snapshots: same keys, same values (opaque values: the same objects)"""
+    return set(a) == set(b) and all(snap_equal(a[k], b[k]) for k in a)
+
+
+def attrs_diff(a, b):
+    out = []
+    for k in a:
+        if k not in b:
+            out.append(f"{k!r} removed")
+        elif not snap_equal(a[k], b[k]):
+            out.append(f"{k!r}: {show_snap(a[k])[:60]} -> {show_snap(b[k])[:60]}")
+    out.extend(f"{k!r} added (= {show_snap(b[k])[:40]})" for k in b if k not in a)
+    return "; ".join(out)[:300]
+
+
+def snap_coord(v):
+    return dict(dims=tuple(v.dims), values=np.array(np_of(v.data), copy=True), dtype=str(v.dtype), attrs=snap_attrs(v.attrs))
+
+
 def snap_da(d):
     return dict(kind="DataArray", values=np.array(np_of(d.data), copy=True), dtype=str(d.dtype), dims=tuple(d.dims),
-                name=d.name, attrs=copy.deepcopy(dict(d.attrs)), shape=tuple(d.shape),
-                coords={str(k): (tuple(v.dims), np.array(v.values, copy=True)) for k, v in d.coords.items()},
+                name=d.name, attrs=snap_attrs(d.attrs), shape=tuple(d.shape),
+                coords={str(k): snap_coord(v) for k, v in d.coords.items()},
                 chunks=getattr(d.data, "chunks", None), backend=type(d.data).__name__)
 
 
@@ -294,12 +484,12 @@ def snapshot(obj):
         return snap_da(obj)
     if isinstance(obj, xr.Dataset):
         return dict(kind="Dataset", vars={str(k): snap_da(obj[k]) for k in obj.data_vars},
-                    attrs=copy.deepcopy(dict(obj.attrs)))
+                    attrs=snap_attrs(obj.attrs))
     if isinstance(obj, np.ndarray) or hasattr(obj, "compute"):
         return dict(kind="ndarray", values=np.array(np_of(obj), copy=True), dtype=str(obj.dtype))
     if callable(obj):
         return dict(kind="callable")
-    return dict(kind="plain", value=copy.deepcopy(obj))
+    return dict(kind="plain", value=snap_value(obj))
 
 
 def same_values(a, b):
@@ -322,27 +512,17 @@ def diff_da(name, before, after, allow_dtype=False):
     if before["name"] != after["name"]:
         out.append(f"{name}: name {before['name']!r} -> {after['name']!r}")
     if not attrs_equal(before["attrs"], after["attrs"]):
-        out.append(f"{name}: attrs {before['attrs']} -> {after['attrs']}")
+        out.append(f"{name}: attrs changed: {attrs_diff(before['attrs'], after['attrs'])}")
     if set(before["coords"]) != set(after["coords"]):
         out.append(f"{name}: coords {sorted(before['coords'])} -> {sorted(after['coords'])}")
     else:
-        for k, (dm, v) in before["coords"].items():
-            if dm != after["coords"][k][0] or not same_values(v, after["coords"][k][1]):
+        for k, cb in before["coords"].items():
+            ca = after["coords"][k]
+            if cb["dims"] != ca["dims"] or cb["dtype"] != ca["dtype"] or not same_values(cb["values"], ca["values"]):
                 out.append(f"{name}: coordinate {k} changed")
+            elif not attrs_equal(cb["attrs"], ca["attrs"]):
+                out.append(f"{name}: attrs of coordinate {k} changed: {attrs_diff(cb['attrs'], ca['attrs'])}")
     return out
-
-
-def attrs_equal(a, b):
-    if set(a) != set(b):
-        return False
-    for k in a:
-        x, y = a[k], b[k]
-        if isinstance(x, np.ndarray) or isinstance(y, np.ndarray):
-            if not same_values(x, y):
-                return False
-        elif x != y and not (x != x and y != y):
-            return False
-    return True
 
 
 def diff(name, before, after, allow_dtype=False):
@@ -364,37 +544,128 @@ def diff(name, before, after, allow_dtype=False):
         return ([] if same_values(before["values"], after["values"]) else [f"{name}: values changed"]) + \
                ([] if before["dtype"] == after["dtype"] else [f"{name}: dtype changed"])
     if before["kind"] == "plain":
-        try:
-            ok = before["value"] == after["value"] or repr(before["value"]) == repr(after["value"])
-        except Exception:
-            ok = repr(before["value"]) == repr(after["value"])
-        return [] if ok else [f"{name}: {before['value']!r} -> {after['value']!r}"]
+        return [] if snap_equal(before["value"], after["value"]) else \
+            [f"{name}: {show_snap(before['value'])[:80]} -> {show_snap(after['value'])[:80]}"]
     return []
+
+
+# ---- the buffers of an argument / of a result: cells, every coordinate, array-valued attributes
+def arrays_in(v, label, depth=0):
+    """(label, ndarray) for every numpy array reachable from an attribute value"""
+    if isinstance(v, np.ndarray):
+        yield label, v
+    elif isinstance(v, dict) and depth < 8:
+        for k, x in v.items():
+            yield from arrays_in(x, f"{label}[{k!r}]", depth + 1)
+    elif isinstance(v, (list, tuple)) and depth < 8:
+        for i, x in enumerate(v):
+            yield from arrays_in(x, f"{label}[{i}]", depth + 1)
+
+
+def da_buffers(d, name):
+    """(kind, label, ndarray, is_index) -- kind in data | coord | attr.  Dask-backed parts hold no memory of
+    their own until they are computed and are left out."""
+    if isinstance(d.data, np.ndarray):
+        yield "data", name, d.data, False
+    for c, v in d.coords.items():
+        arr = v.variable._data if isinstance(v.variable._data, np.ndarray) else v.data
+        if isinstance(arr, np.ndarray):
+            yield "coord", f"{name}.coords[{c!r}]", arr, c in d.indexes
+        for lab, a in arrays_in(dict(v.attrs), f"{name}.coords[{c!r}].attrs"):
+            yield "attr", lab, a, False
+    for lab, a in arrays_in(dict(d.attrs), f"{name}.attrs"):
+        yield "attr", lab, a, False
+
+
+def obj_buffers(obj, name):
+    import xarray as xr
+    if isinstance(obj, xr.DataArray):
+        yield from da_buffers(obj, name)
+    elif isinstance(obj, xr.Dataset):
+        for k in obj.data_vars:
+            yield from da_buffers(obj[k], f"{name}[{k!r}]")
+        for lab, a in arrays_in(dict(obj.attrs), f"{name}.attrs"):
+            yield "attr", lab, a, False
+    elif isinstance(obj, np.ndarray):
+        yield "data", name, obj, False
+    elif isinstance(obj, (tuple, list)):
+        for i, o in enumerate(obj):
+            yield from obj_buffers(o, f"{name}[{i}]")
 
 
 def buffers_of(obj):
-    """numpy buffers reachable from an argument (data only; coordinate indexes are immutable)"""
-    import xarray as xr
-    if isinstance(obj, xr.DataArray):
-        return [obj.data] if isinstance(obj.data, np.ndarray) else []
-    if isinstance(obj, xr.Dataset):
-        return [obj[k].data for k in obj.data_vars if isinstance(obj[k].data, np.ndarray)]
-    if isinstance(obj, np.ndarray):
-        return [obj]
-    return []
+    """numpy buffers holding the cells of an argument"""
+    return [a for kind, _, a, _ in obj_buffers(obj, "") if kind == "data"]
 
 
 def out_arrays(out):
+    return [a for kind, _, a, _ in obj_buffers(out, "") if kind == "data"]
+
+
+def shares_writable(o_arr, o_index, i_arr):
+    """does a buffer of the output share *writable* memory with a buffer of an input.  The values of an index
+    coordinate are handed out by xarray as a read-only view of an immutable pandas index: such an array cannot be
+    written through, so sharing it is not sharing writable memory."""
+    if o_arr.size == 0 or i_arr.size == 0 or not np.shares_memory(o_arr, i_arr):
+        return False
+    return bool(o_arr.flags.writeable) or not o_index
+
+
+def scribble(a):
+    """overwrite a writable array with values that differ from what it holds"""
+    if not (isinstance(a, np.ndarray) and a.flags.writeable and a.size):
+        return False
+    k = a.dtype.kind
+    if k == "b":
+        a[...] = ~a
+    elif k in "iuf":
+        a[...] = np.where(a == np.array(7).astype(a.dtype), 8, 7).astype(a.dtype)
+    elif k == "M":
+        a[...] = a + np.timedelta64(1, "D").astype(a.dtype.str.replace("M", "m"))
+    elif k in "US":
+        a[...] = "~"
+    else:
+        return False
+    return True
+
+
+def probe_output(out):
+    """write into everything writable the result exposes: cells, coordinates (values and attrs), attrs dict"""
     import xarray as xr
-    if isinstance(out, xr.DataArray):
-        return [out.data] if isinstance(out.data, np.ndarray) else []
-    if isinstance(out, xr.Dataset):
-        return [out[k].data for k in out.data_vars if isinstance(out[k].data, np.ndarray)]
-    if isinstance(out, np.ndarray):
-        return [out]
-    if isinstance(out, (tuple, list)):
-        return [a for o in out for a in out_arrays(o)]
-    return []
+    done = []
+    objs = []
+
+    def collect(o):
+        if isinstance(o, xr.DataArray):
+            objs.append(o)
+        elif isinstance(o, xr.Dataset):
+            objs.extend(o[k] for k in o.data_vars)
+            objs.append(o)
+        elif isinstance(o, (tuple, list)):
+            for x in o:
+                collect(x)
+    collect(out)
+    for kind, lab, a, _ in obj_buffers(out, "out"):
+        if kind in ("data", "coord"):
+            try:
+                if scribble(a):
+                    done.append(kind)
+            except Exception as ex:
+                done.append(f"{lab}: {ex!r}"[:60])
+    for o in objs:
+        try:
+            for c in o.coords:
+                o.coords[c].variable.attrs["__c10_probe__"] = 1
+            keys = list(o.attrs)
+            o.attrs["__c10_probe__"] = 1
+            if keys:
+                o.attrs[keys[0]] = "__c10_overwritten__"
+                if len(keys) > 1:
+                    del o.attrs[keys[-1]]
+            done.append("attrs")
+        except Exception as ex:
+            done.append(f"attrs: {ex!r}"[:60])
+    return done
 
 
 # ------------------------------------------------------------------------------------------------ one case
@@ -403,8 +674,8 @@ def observe(case):
     import warnings
     import xarray as xr
     warnings.filterwarnings("ignore")
-    res = dict(case=case, status="ok", modified=[], owner_modified=[], shares=[], probe_modified=[], identity=[],
-               notes=[])
+    res = dict(case=case, status="ok", modified=[], owner_modified=[], shares=[], shares_meta=[], shares_comp=[],
+               probe_modified=[], identity=[], notes=[])
     try:
         f, I, kw = build(case)
     except Exception as ex:
@@ -421,7 +692,8 @@ def observe(case):
         out = None
         res["status"] = "raised:" + type(ex).__name__
         res["notes"].append(str(ex)[:160])
-    # (1) inputs unchanged -- values, coords, attrs, dims, name
+    # (1) inputs unchanged -- values, coords (values, dtype, attrs), attrs (recursively), dims, name; also when the
+    #     call raised
     for n, v in I.args.items():
         d = diff(n, before[n], snapshot(v), allow_dtype=(WIDENS.get(key) == n))
         if INPLACE.get(key) == n:
@@ -437,15 +709,31 @@ def observe(case):
     if out is None:
         return res
     res["out_type"] = type(out).__name__
-    # (2) no shared memory
-    oa = out_arrays(out)
+    # (2) no shared writable memory: every buffer of the result (cells, coordinates, array-valued attrs) against
+    #     every buffer of every argument
+    obufs = list(obj_buffers(out, "out"))
     for n, v in I.args.items():
-        for b in buffers_of(v):
-            if any(np.shares_memory(o, b) for o in oa):
-                res["shares"].append(n)
-    for n, o in I.owners.items():
-        if isinstance(o, np.ndarray) and any(np.shares_memory(x, o) for x in oa) and n.split(".")[0] not in res["shares"]:
-            res["shares"].append(n.split(".")[0])
+        ibufs = list(obj_buffers(v, n))
+        ibufs += [("data" if "coord:" not in on else "coord", on, o, False) for on, o in I.owners.items()
+                  if on.split(".")[0] == n and isinstance(o, np.ndarray)]
+        for okind, olab, o, oindex in obufs:
+            for ikind, ilab, b, _ in ibufs:
+                if not shares_writable(o, oindex, b):
+                    continue
+                if okind == "data" and ikind == "data":
+                    if n not in res["shares"]:
+                        res["shares"].append(n)
+                elif okind == "attr" and ikind == "attr":
+                    # xarray's attrs copy is shallow by convention (DataArray(attrs=…), every arithmetic operation):
+                    # the dict is the output's own, a value nested in it is the same object.  Recorded, not judged.
+                    if "attribute values shared by reference (shallow attrs copy)" not in res["notes"]:
+                        res["notes"].append("attribute values shared by reference (shallow attrs copy)")
+                else:
+                    msg = f"{olab} ~ {ilab}"
+                    if msg not in res["shares_meta"] and len(res["shares_meta"]) < 12:
+                        res["shares_meta"].append(msg)
+                    if [okind, n, ikind] not in res["shares_comp"]:
+                        res["shares_comp"].append([okind, n, ikind])
     # (3) identity
     if isinstance(out, xr.DataArray):
         res["out_backend"] = type(out.data).__name__
@@ -456,18 +744,20 @@ def observe(case):
                 res["identity"].append(f"shape {tuple(out.shape)} != {b['shape']}")
             if tuple(out.dims) != b["dims"]:
                 res["identity"].append(f"dims {tuple(out.dims)} != {b['dims']}")
-            oc = {str(k): (tuple(v.dims), np.array(v.values)) for k, v in out.coords.items()}
+            oc = {str(k): (tuple(v.dims), np_of(v.data)) for k, v in out.coords.items()}
             if set(oc) != set(b["coords"]):
                 res["identity"].append(f"coords {sorted(oc)} != {sorted(b['coords'])}")
             else:
-                for k, (dm, v) in b["coords"].items():
-                    if dm != oc[k][0] or not same_values(v, oc[k][1]):
+                for k, cb in b["coords"].items():
+                    if cb["dims"] != oc[k][0] or not same_values(cb["values"], oc[k][1]):
                         res["identity"].append(f"coordinate {k} differs")
-            oattrs = dict(out.attrs)
+            oattrs = snap_attrs(out.attrs)
             extra = EXTRA_ATTRS.get(key, set())
             if not attrs_equal({k: v for k, v in oattrs.items() if k not in extra},
                                {k: v for k, v in b["attrs"].items() if k not in extra}):
-                res["identity"].append(f"attrs {oattrs} != {b['attrs']}")
+                res["identity"].append("attrs differ from the input's: " + attrs_diff(
+                    {k: v for k, v in b["attrs"].items() if k not in extra},
+                    {k: v for k, v in oattrs.items() if k not in extra}))
             if type(out.data).__name__ != b["backend"]:
                 res["identity"].append(f"backend {type(out.data).__name__} != {b['backend']}")
         elif key in SAME_SHAPE:
@@ -478,17 +768,7 @@ def observe(case):
         res["identity"].append(f"result is a {type(out).__name__}, not a DataArray")
     # (4) writing to the output never changes the input
     if key not in VIEWS:
-        try:
-            for o in oa:
-                if o.flags.writeable and o.size:
-                    o[...] = np.array(7).astype(o.dtype) if o.dtype.kind != "b" else True
-            if isinstance(out, (xr.DataArray, xr.Dataset)):
-                out.attrs["__c10_probe__"] = 1
-                for k in list(out.attrs):
-                    if isinstance(out.attrs[k], dict):
-                        pass
-        except Exception as ex:
-            res["notes"].append("probe: " + repr(ex)[:80])
+        res["probed"] = probe_output(out)
         for n, v in I.args.items():
             if INPLACE.get(key) == n:
                 continue
@@ -497,6 +777,8 @@ def observe(case):
         for n, o in I.owners.items():
             if not same_values(owners_before[n], o) and n not in res["owner_modified"]:
                 res["probe_modified"].append(f"{n}: memory changed by writing to the output")
+    else:
+        res["shares_meta"] = []         # documented windows / views of the input
     return res
 
 
@@ -515,9 +797,14 @@ def observe_sequence(case):
     rng = random.Random(case["seed"])
     res = dict(case=case, status="ok", modified=[], owner_modified=[], shares=[], probe_modified=[], identity=[],
                notes=[], steps=[])
-    shared, owner = mk_raster(rng, case["dtype"], case["layout"], case["backend"], nan=False, rname="elev", tag="shared")
+    shared, owner, cowners = mk_raster(rng, case["dtype"], case["layout"], case["backend"], nan=False, rname="elev",
+                                       tag="shared", meta=case.get("meta"))
     before = snapshot(shared)
-    owner_before = np.array(owner, copy=True)
+    owners = dict({"cells": owner}, **{f"coordinate {c}": o for c, o in cowners.items()})
+    owners_before = {n: np.array(o, copy=True) for n, o in owners.items()}
+
+    def memory_changed():
+        return [f"shared: memory of {n} changed" for n, o in owners.items() if not same_values(owners_before[n], o)]
     widened = False
     outs = []
     for fname in case["funcs"]:
@@ -534,9 +821,7 @@ def observe_sequence(case):
         except Exception as ex:
             st = "raised:" + type(ex).__name__
         widened = widened or fname in WIDENS
-        d = diff("shared", before, snapshot(shared), allow_dtype=widened)
-        if not same_values(owner_before, owner):
-            d.append("shared: memory changed")
+        d = diff("shared", before, snapshot(shared), allow_dtype=widened) + memory_changed()
         res["steps"].append(f"{fname}:{st}")
         if d:
             res["modified"] = [f"after {fname} (call {len(res['steps'])} of the sequence): " + "; ".join(d)]
@@ -547,14 +832,9 @@ def observe_sequence(case):
         for fname, out in outs:
             if fname in VIEWS:
                 continue
-            for o in out_arrays(out):
-                try:
-                    if o.flags.writeable and o.size:
-                        o[...] = np.array(5).astype(o.dtype) if o.dtype.kind != "b" else True
-                except Exception:
-                    pass
-            d = diff("shared", before, snapshot(shared), allow_dtype=widened)
-            if d or not same_values(owner_before, owner):
+            probe_output(out)
+            d = diff("shared", before, snapshot(shared), allow_dtype=widened) + memory_changed()
+            if d:
                 res["probe_modified"] = [f"writing to the result of {fname} changed the shared raster: " + "; ".join(d)]
                 res["culprit"] = fname
                 break
@@ -568,7 +848,7 @@ def run_chunk(cases):
             out.append(observe_sequence(c) if c.get("kind") == "sequence" else observe(c))
         except Exception:
             out.append(dict(case=c, status="harness-error:" + traceback.format_exc()[-400:], modified=[],
-                            owner_modified=[], shares=[], probe_modified=[], identity=[], notes=[]))
+                            owner_modified=[], shares=[], shares_meta=[], probe_modified=[], identity=[], notes=[]))
     return out
 
 
@@ -735,6 +1015,243 @@ def run_primitive_probes(r, used):
         and not (u in fb.PRIMS and u.startswith("np.")))
 
 
+# ------------------------------------------------------------------------------------------------ wrapper-level probes
+def component_sharing(out, data_src, coords_src, attrs_src):
+    """(cells shared, coordinate memory shared, attrs dict shared) between the result of an xarray primitive and
+    the sources it was built from; None when the result is no raster object"""
+    import xarray as xr
+    outs = []
+
+    def coll(o):
+        if isinstance(o, xr.DataArray):
+            outs.append(o)
+        elif isinstance(o, xr.Dataset):
+            outs.extend(o[k] for k in o.data_vars)
+        elif isinstance(o, (tuple, list)):
+            for x in o:
+                coll(x)
+    coll(out)
+    if not outs:
+        return None
+    src_coord_bufs = []
+    if coords_src is not None:
+        for cn, cv in coords_src.coords.items():
+            a = cv.variable._data if isinstance(cv.variable._data, np.ndarray) else cv.data
+            if isinstance(a, np.ndarray):
+                src_coord_bufs.append(a)
+    d = c = a = False
+    for o in outs:
+        if data_src is not None and isinstance(o.data, np.ndarray) and o.data.size and np.shares_memory(o.data, data_src):
+            d = True
+        for cn, cv in o.coords.items():
+            arr = cv.variable._data if isinstance(cv.variable._data, np.ndarray) else cv.data
+            if not isinstance(arr, np.ndarray) or (cn in o.indexes and not arr.flags.writeable):
+                continue
+            if any(np.shares_memory(arr, b) for b in src_coord_bufs) or \
+                    (data_src is not None and np.shares_memory(arr, data_src)):
+                c = True
+        if attrs_src is not None and o.attrs is attrs_src:
+            a = True
+    return d, c, a
+
+
+def wrapper_probes():
+    """(row of the wrapper-level table, spelling, probe: source raster -> (result, data source, coords source,
+    attrs source))"""
+    import copy as cp
+    import xarray as xr
+
+    def fresh(s):
+        return np.zeros(s.shape)
+
+    def ctor(s):
+        a = fresh(s)
+        return xr.DataArray(a, coords=s.coords, dims=s.dims, attrs=s.attrs), a, s, s.attrs
+
+    def ctor_dict(s):
+        a = fresh(s)
+        return xr.DataArray(a, dims=s.dims, coords={c: s[c] for c in s.coords}, attrs=dict(s.attrs)), a, s, s.attrs
+
+    def ctor_raw(s):
+        a = fresh(s)
+        return xr.DataArray(a, dims=s.dims, coords={c: (s[c].dims, s[c].data) for c in s.coords},
+                            attrs=s.attrs), a, s, s.attrs
+
+    def ctor_star(s):
+        a = np.zeros((2,) + s.shape)
+        return xr.DataArray(a, dims=("stats",) + tuple(s.dims), coords={"stats": [0, 1], **s.coords}, attrs=s.attrs), a, s, s.attrs
+
+    def with_data(deep):
+        def f(s):
+            a = fresh(s)
+            return (s.copy(data=a) if deep is None else s.copy(deep=deep, data=a)), a, s, s.attrs
+        return f
+
+    def obj(fn):
+        return lambda s: (fn(s), s.data, s, s.attrs)
+    P = [
+        ("DataArray", "DataArray(a, coords=s.coords, dims=s.dims, attrs=s.attrs)", ctor),
+        ("DataArray", "DataArray(a, coords={c: s[c]}, attrs=dict(s.attrs))", ctor_dict),
+        ("DataArray", "DataArray(a, coords={c: (dims, s[c].data)})", ctor_raw),
+        ("DataArray", "DataArray(a, coords={'stats': …, **s.coords})", ctor_star),
+        ("DataArray", "DataArray(s)", obj(lambda s: xr.DataArray(s))),
+        ("copy(deep)", "s.copy()", obj(lambda s: s.copy())),
+        ("copy(deep)", "s.copy(deep=True)", obj(lambda s: s.copy(deep=True))),
+        ("copy(deep)", "copy.deepcopy(s)", obj(lambda s: cp.deepcopy(s))),
+        ("copy(shallow)", "s.copy(deep=False)", obj(lambda s: s.copy(deep=False))),
+        ("copy(shallow)", "copy.copy(s)", obj(lambda s: cp.copy(s))),
+        ("copy(deep,data)", "s.copy(deep=True, data=a)", with_data(True)),
+        ("copy(deep,data)", "s.copy(data=a)", with_data(None)),
+        ("copy(shallow,data)", "s.copy(deep=False, data=a)", with_data(False)),
+        ("copy(?)", "s.copy(deep=flag)", obj(lambda s: s.copy(deep=bool(s.shape[0] % 2)))),
+        ("copy(?)", "s.copy(deep=not flag)", obj(lambda s: s.copy(deep=not bool(s.shape[0] % 2)))),
+        ("astype", "s.astype('f4')", obj(lambda s: s.astype("f4"))),
+        ("astype", "s.astype(s.dtype)", obj(lambda s: s.astype(s.dtype))),
+        ("astype(nocopy)", "s.astype(s.dtype, copy=False)", obj(lambda s: s.astype(s.dtype, copy=False))),
+        ("astype(nocopy)", "s.astype('f4', copy=False)", obj(lambda s: s.astype("f4", copy=False))),
+        ("arith", "s * 2", obj(lambda s: s * 2)), ("arith", "-s", obj(lambda s: -s)), ("arith", "s > 0", obj(lambda s: s > 0)),
+        ("arith", "s + s", obj(lambda s: s + s)), ("arith", "np.sqrt(s)", obj(lambda s: np.sqrt(s))),
+        ("arith", "np.maximum(s, 0)", obj(lambda s: np.maximum(s, 0))),
+        ("arith", "s.where(s > 0)", obj(lambda s: s.where(s > 0))), ("arith", "s.clip(0, 1)", obj(lambda s: s.clip(0, 1))),
+        ("arith", "s.max()", obj(lambda s: s.max())), ("arith", "s.mean('y')", obj(lambda s: s.mean("y"))),
+        ("arith", "xr.where(s > 0, s, 0)", obj(lambda s: xr.where(s > 0, s, 0))),
+        ("arith", "s.fillna(0)", obj(lambda s: s.fillna(0))), ("arith", "s.round()", obj(lambda s: s.round())),
+        ("viewlike", "s.T", obj(lambda s: s.T)), ("viewlike", "s.isel(y=slice(0, 2))", obj(lambda s: s.isel(y=slice(0, 2)))),
+        ("viewlike", "s.rename('q')", obj(lambda s: s.rename("q"))), ("viewlike", "s.assign_attrs(k=1)", obj(lambda s: s.assign_attrs(k=1))),
+        ("viewlike", "s.assign_coords(z=1)", obj(lambda s: s.assign_coords(z=1))),
+        ("viewlike", "s.to_dataset(name='q')", obj(lambda s: s.to_dataset(name="q"))),
+        ("viewlike", "s.compute()", obj(lambda s: s.compute())), ("viewlike", "s.squeeze()", obj(lambda s: s.squeeze())),
+        ("viewlike", "s.transpose('x', 'y')", obj(lambda s: s.transpose("x", "y"))),
+        ("viewlike", "s[1:, :2]", obj(lambda s: s[1:, :2])),
+        ("viewlike", "s.sel(y=[1], method='nearest')", obj(lambda s: s.sel(y=[1], method="nearest"))),
+        ("like", "xr.zeros_like(s)", obj(lambda s: xr.zeros_like(s))), ("like", "xr.ones_like(s)", obj(lambda s: xr.ones_like(s))),
+        ("like", "xr.full_like(s, 1)", obj(lambda s: xr.full_like(s, 1))),
+    ]
+    return P
+
+
+def probe_rasters():
+    rng = random.Random(5)
+    for i, dt in enumerate(("int8", "uint16", "int64", "float32", "float64")):
+        for j, lay in enumerate(LAYOUTS):
+            meta = dict(coords=["scalar", "aux2d", "nonindex1d", "cattrs"], cdtype=DTYPES[(3 * i + j) % len(DTYPES)],
+                        clayout=LAYOUTS[(i + j) % 4], attrs=("nested", "arrays", "plain", "nested")[j])
+            r, _, _ = mk_raster(rng, dt, lay, "numpy", nan=False, rname="elev", meta=meta)
+            yield f"{dt}/{lay}/coords:{meta['cdtype']}/{meta['clayout']}", r
+
+
+def run_wrapper_probes(r):
+    """the wrapper-level primitive table (facts_bufprog.WPRIMS = Gen.primTable of the Lean side) against the real
+    xarray: every row with several spellings, every DataArray method, every numpy function of the table applied to a
+    DataArray"""
+    import warnings
+    import xarray as xr
+    import facts_bufprog as fb
+    # (1) the table the Lean programs were built with is the table probed here
+    try:
+        reply = Driver().ask(["primtable"])[0]
+        lean_table = {row.split("|")[0]: tuple(row.split("|")[1:]) for row in reply.split(";") if row}
+    except Exception as ex:
+        lean_table = None
+        r.notes.append("driver unavailable for primtable: " + repr(ex)[:100])
+    if lean_table is not None and lean_table != {k: tuple(v) for k, v in fb.WPRIMS.items()}:
+        r.disagree("wrapper-table", dict(side="Gen.primTable vs facts_bufprog.WPRIMS"), str(sorted(fb.WPRIMS.items()))[:300],
+                   str(sorted(lean_table.items()))[:300])
+    table = fb.WPRIMS
+    comps = ("cells", "coordinates", "attrs dict")
+    seen = {}
+
+    def judge_row(row, spelling, tag, got, exact):
+        for mode, sh, comp in zip(table[row], got, comps):
+            seen.setdefault((row, comp), set()).add(sh)
+            if mode in ("fresh", "deep") and sh:
+                r.disagree("wrapper-table", dict(row=row, spelling=spelling, raster=tag, component=comp),
+                           "the result shares this component with its source", f"classified {mode}")
+            if exact and mode == "shallow" and not sh:
+                r.disagree("wrapper-table", dict(row=row, spelling=spelling, raster=tag, component=comp),
+                           "the result does not share this component", "classified shallow")
+    rasters = list(probe_rasters())
+    for row, spelling, fn in wrapper_probes():
+        for tag, src in rasters:
+            try:
+                with warnings.catch_warnings():
+                    warnings.simplefilter("ignore")
+                    out, dsrc, csrc, asrc = fn(src)
+                got = component_sharing(out, dsrc, csrc, asrc)
+            except Exception as ex:
+                r.tag("wprobe-error:" + spelling[:30])
+                r.notes.append(f"wrapper probe {spelling} on {tag}: {ex!r}"[:160])
+                continue
+            if got is None:
+                continue
+            r.case(f"wprobe:{spelling}:{tag}", nontrivial=True, tags=[f"wprobe:{row}"])
+            judge_row(row, spelling, tag, got, exact=True)
+    # (2) every public method of DataArray: what the translator does with the name must cover what xarray does
+    auto = 0
+    io = lambda n: (n.startswith("to_") and n not in ("to_dataset", "to_array", "to_dataarray", "to_numpy", "to_masked_array",
+                                                         "to_index", "to_series", "to_pandas", "to_dict", "to_dataframe")) \
+        or n in ("plot", "pipe", "map_blocks", "from_dict", "from_series", "from_iris")      # nothing that writes files
+    for name in sorted(n for n in dir(xr.DataArray) if not n.startswith("_") and not io(n)):
+        for tag, src in rasters[::7]:
+            f = getattr(src, name, None)
+            if not callable(f):
+                break
+            got = None
+            for args, kw in (((), {}), ((src > 0,), {}), ((0,), {}), ((0, 1), {}), (("y",), {}), (({"y": 0},), {}),
+                             ((), {"y": 0}), (("f4",), {}), ((src,), {}), ((), {"name": "q"}), (("q",), {})):
+                try:
+                    with warnings.catch_warnings():
+                        warnings.simplefilter("ignore")
+                        got = component_sharing(f(*args, **kw), src.data, src, src.attrs)
+                    if got is not None:
+                        break
+                except Exception:
+                    continue
+            if got is None:
+                continue
+            auto += 1
+            if name in ("copy", "astype"):
+                continue            # probed above, one spelling per row
+            row = fb.XMETHODS.get(name)
+            if row is not None:
+                judge_row(row, f"DataArray.{name}(…)", tag, got, exact=False)
+            elif fb.METHODS.get(name) in ("alloc", "scalar", "mview", "astype") and any(got):
+                r.disagree("wrapper-table", dict(method=name, raster=tag), f"the result shares (cells, coords, attrs) = {got}",
+                           f"the translator treats .{name}() as the ndarray method ({fb.METHODS.get(name)})")
+    # (3) numpy functions that hand a DataArray back for a DataArray must be known as such (else their result would be
+    #     taken for a bare array without coordinates)
+    tag, src = rasters[-1]
+    missing = []
+    for name, cls in sorted(fb.PRIMS.items()):
+        if not name.startswith("np.") or cls not in ("alloc", "copy", "view", "mview"):
+            continue
+        obj = np
+        try:
+            for part in name.split(".")[1:]:
+                obj = getattr(obj, part)
+        except AttributeError:
+            continue
+        if not callable(obj):
+            continue
+        for args in ((src,), (src, src), (src, 1), (src, 0), (src > 0, src, src)):
+            try:
+                with warnings.catch_warnings():
+                    warnings.simplefilter("ignore")
+                    out = obj(*args)
+            except Exception:
+                continue
+            parts = out if isinstance(out, (tuple, list)) else [out]
+            if any(isinstance(p, (xr.DataArray, xr.Variable, xr.Dataset)) for p in parts) and name[3:] not in fb.NP_XR:
+                missing.append(name)
+            break
+    for name in missing:
+        r.disagree("wrapper-table", dict(function=name), "returns a DataArray when it is given one",
+                   "not listed in facts_bufprog.NP_XR (its result would be taken for a bare array)")
+    r.extra["wrapper_probes"] = dict(rows=len(table), spellings=len(wrapper_probes()), rasters=len(rasters),
+                                     methods_probed=auto, resolutions={f"{row}:{comp}": sorted(v) for (row, comp), v in seen.items()
+                                                                       if table[row][comps.index(comp)] == "maybe"})
+
+
 # ------------------------------------------------------------------------------------------------ the check
 def gen_report():
     rep = json.load(open(os.path.join(LEAN, "XrsVerif", "Gen", "report.json")))
@@ -753,8 +1270,9 @@ def predictions(funcs):
             out[f] = None
             continue
         kv = dict(t.split("=", 1) for t in line.split(" "))
-        out[f] = dict(ok=kv["ok"] == "true", write=[int(x) for x in kv["write"].split(",") if x],
-                      ret=[int(x) for x in kv["ret"].split(",") if x], unknown=kv["unknown"] == "true",
+        ints = lambda t: [int(x) for x in kv.get(t, "").split(",") if x]
+        out[f] = dict(ok=kv["ok"] == "true", write=ints("write"), ret=ints("ret"), retc=ints("retc"), reta=ints("reta"),
+                      k=int(kv.get("k", "0")), unknown=kv["unknown"] == "true",
                       meta=kv["meta"] == "true", view=kv["view"] == "true", size=int(kv["size"]))
     return out, None
 
@@ -782,8 +1300,16 @@ def make_cases(rng, funcs, tier, full=False, only_backend=None):
                 if backend == "numpy" and f not in SLOW:
                     pick[0] = (rng.choice(DTYPES[:8]), pick[0][1])
                     pick[1] = (rng.choice(DTYPES[8:]), pick[1][1])
-            for d, l in pick:
-                cases.append(dict(func=f, backend=backend, dtype=d, layout=l, seed=rng.randrange(1 << 30)))
+            for i, (d, l) in enumerate(pick):
+                # the fixture dimension: per function at least one raster whose attrs cannot be deep-copied, one with
+                # nested / array-valued attrs and one with scalar + 2-D auxiliary + non-index 1-D coordinates
+                if backend == "numpy" and i % 4 == 0:
+                    meta = draw_meta(rng, attrs=rng.choice(UNCOPYABLE))
+                elif backend == "numpy" and i % 4 == 1:
+                    meta = draw_meta(rng, attrs=rng.choice(["nested", "arrays"]), coords=["scalar", "aux2d", "nonindex1d"])
+                else:
+                    meta = draw_meta(rng)
+                cases.append(dict(func=f, backend=backend, dtype=d, layout=l, seed=rng.randrange(1 << 30), meta=meta))
     return cases
 
 
@@ -799,9 +1325,11 @@ def judge(r, res, entries, preds):
         return
     key = c["func"]
     st = res["status"].split(":")[0]
+    m = c.get("meta") or dict(coords=["scalar"], attrs="plain", cdtype="int64", clayout="C")
     r.case(c, desc=c if len(r.samples) < 6 else None, nontrivial=True,
            tags=[f"fn:{key}", f"backend:{c['backend']}", f"dtype:{c['dtype']}", f"layout:{c['layout']}",
-                 f"status:{res['status'] if st != 'ok' else 'ok'}"[:60]])
+                 f"status:{res['status'] if st != 'ok' else 'ok'}"[:60], f"attrs:{m['attrs']}",
+                 f"coord-dtype:{m['cdtype']}", f"coord-layout:{m['clayout']}"] + [f"coords:{x}" for x in m["coords"]])
     if st == "raised":
         r.tag(f"raised:{key}:{c['backend']}:{res['status'].split(':')[1]}")
     if st in ("build-failed", "harness-error"):
@@ -809,7 +1337,7 @@ def judge(r, res, entries, preds):
         r.tag("harness-problem")
         return
     for n in res["notes"]:
-        if "rechunked" in n or "in place by contract" in n:
+        if "rechunked" in n or "in place by contract" in n or "shared by reference" in n:
             r.tag("note:" + n.split(":")[-1].strip()[:40])
     # ---- the property
     if res["modified"] or res["owner_modified"]:
@@ -818,6 +1346,10 @@ def judge(r, res, entries, preds):
     if res["shares"] and key not in VIEWS:
         r.fail(f"{key}:shares-memory", f"{key} [{c['backend']}, {c['dtype']}, {c['layout']}] returns memory shared "
                f"with {res['shares']}", c)
+    if res.get("shares_meta") and key not in VIEWS:
+        r.fail(f"{key}:shares-coordinate-memory", f"{key} [{c['backend']}, {c['dtype']}, {c['layout']}] returns "
+               "coordinates / attribute arrays that share writable memory with the input's: "
+               + "; ".join(res["shares_meta"])[:400], c)
     if res["probe_modified"]:
         r.fail(f"{key}:output-write-reaches-input", f"{key} [{c['backend']}, {c['dtype']}, {c['layout']}]: writing "
                "to the output changed the input: " + "; ".join(res["probe_modified"])[:300], c)
@@ -828,14 +1360,32 @@ def judge(r, res, entries, preds):
     if c["backend"] == "numpy" and preds.get(key) and key in entries:
         params = entries[key]["params"]
         p = preds[key]
+        npar = p["k"] // 3 if p.get("k") else len(params)
+
+        def slots(n):
+            """the input buffers of parameter n: cells, coordinates, attrs"""
+            i = params.index(n)
+            return {i, npar + i, 2 * npar + i}
         written = {x.split(":")[0].split("[")[0] for x in res["modified"] if "values changed" in x} | \
-                  {o.split(".")[0] for o in res["owner_modified"]}
+                  {o.split(".")[0] for o in res["owner_modified"] if "coord:" not in o}
         for n in written:
             if n in params and params.index(n) not in p["write"]:
                 r.disagree("prediction-vs-observation", c, f"input {n} was written", f"program predicts writes only to {p['write']}")
+        # wrapper level: a changed coordinate / attribute of an input must be a predicted write of one of its buffers
+        meta_written = {x.split(":")[0].split("[")[0] for x in res["modified"]
+                        if ": coordinate " in x or ": attrs" in x or ": coords " in x or ": name " in x} | \
+                       {o.split(".")[0] for o in res["owner_modified"] if "coord:" in o}
+        for n in meta_written:
+            if n in params[:npar] and not (slots(n) & set(p["write"])):
+                r.disagree("prediction-vs-observation", c, f"coordinates / attrs of input {n} were written",
+                           f"program predicts writes only to {[params[i] for i in p['write']]}")
         for n in set(res["shares"]):
             if n in params and params.index(n) not in p["ret"]:
                 r.disagree("prediction-vs-observation", c, f"result shares memory with {n}", f"program predicts aliases only of {p['ret']}")
+        for okind, n, ikind in res.get("shares_comp", []):
+            if n in params[:npar] and not (slots(n) & set(p["ret"] + p["retc"] + p["reta"])) and key not in VIEWS:
+                r.disagree("prediction-vs-observation", c, f"the result's {okind} shares memory with a {ikind} buffer of {n}",
+                           f"program predicts that the result may alias only {[params[i] for i in p['ret'] + p['retc'] + p['reta']]}")
 
 
 def run(r, full=False):
@@ -862,14 +1412,16 @@ def run(r, full=False):
         for u in e.get("unclassified", []):
             r.tag("unclassified:" + u)
     run_primitive_probes(r, used)
+    run_wrapper_probes(r)
     r.extra["phase_s"]["primitive_probes"] = round(time.time() - t_start, 1)
     preds, err = predictions(funcs)
     if err:
         r.notes.append("driver unavailable: " + err)
     bad = [f for f, p in preds.items() if p and not p["ok"]]
     badmeta = [f for f, p in preds.items() if p and not p["meta"]]
-    r.extra["buffer_programs"] = {f: dict(size=p["size"], may_write=p["write"], may_return=p["ret"], ok=p["ok"], meta=p["meta"])
-                           for f, p in preds.items() if p}
+    r.extra["buffer_programs"] = {f: dict(size=p["size"], may_write=p["write"], may_return=p["ret"],
+                                          may_return_coords=p["retc"], may_return_attrs=p["reta"], ok=p["ok"], meta=p["meta"])
+                                  for f, p in preds.items() if p}
     r.extra["rejected_by_checker"] = bad
     r.extra["meta_not_conforming"] = badmeta
     if bad or badmeta:
@@ -887,7 +1439,7 @@ def run(r, full=False):
         pool = [f for f in avail if backend == "numpy" or f not in NUMPY_ONLY]
         cases.append(dict(kind="sequence", funcs=[r.rng.choice(pool) for _ in range(r.rng.randrange(3, 7))],
                           backend=backend, dtype=r.rng.choice(DTYPES), layout=r.rng.choice(LAYOUTS),
-                          seed=r.rng.randrange(1 << 30)))
+                          seed=r.rng.randrange(1 << 30), meta=draw_meta(r.rng)))
     t_obs = time.time()
     results = run_parallel(cases)
     for res in results:
@@ -915,7 +1467,9 @@ def replay(r, body):
     c = body["case"]
     res = observe_sequence(c) if c.get("kind") == "sequence" else observe(c)
     bad = res["modified"] + res["owner_modified"] + res["probe_modified"] + res["identity"] + \
-        ([f"shares memory with {res['shares']}"] if res["shares"] and c.get("func") not in VIEWS else [])
+        ([f"shares memory with {res['shares']}"] if res["shares"] and c.get("func") not in VIEWS else []) + \
+        (["shares coordinate / attribute memory: " + "; ".join(res["shares_meta"])] if res.get("shares_meta") and
+         c.get("func") not in VIEWS else [])
     if bad:
         print("still fails:", "; ".join(bad)[:600])
         return 1
